@@ -145,10 +145,11 @@ Definition lex_ident (st : lstate) (b : byte) (r : list byte) : N * nat :=
   (if after_bs st then K_Ident
    else match from_keyword (b :: firstn n r) with Some k => k | None => K_Ident end, n).
 
-(* the big match of next_token, first byte b already bumped, r the rest *)
+(* the big match of next_token, first byte b already bumped, r the rest.  The
+   `EOF` arm applies only when nothing was bumped (end of the input, see
+   next_token): a NUL byte in the text takes the arms below like any other byte. *)
 Definition lex_first (st : lstate) (b : byte) (r : list byte) : N * nat :=
-  if nbeq b 0 then (K_Eof, 0%nat)
-  else if nbeq (in_path st) 2 then (K_Path, span path_cont r)
+  if nbeq (in_path st) 2 then (K_Path, span path_cont r)
   else if is_ws b then (K_Whitespace, span is_ws r)
   else if nbeq b 35 then (K_Comment, span comment_cont r)
   else if nbeq b 34 then lex_string r
@@ -188,8 +189,8 @@ Definition next_token (st : lstate) (rest : list byte) : lexeme * lstate :=
   | b :: r => let '(k, extra) := lex_first st b r in (mkLex k (S extra), lstate_after st k)
   end.
 
-(* All lexemes up to the end of the input (the lexer keeps going after the
-   one-byte Eof it produces for a NUL byte; after the end it yields Eof/0 for ever). *)
+(* All lexemes up to the end of the input (after the end the lexer yields Eof/0
+   for ever). *)
 Fixpoint lex_all (fuel : nat) (st : lstate) (rest : list byte) : option (list lexeme) :=
   match rest with
   | [] => Some []
@@ -319,23 +320,18 @@ Definition slice (text : list byte) (a len : nat) : option (list byte) :=
   if (a + len <=? length text) && is_boundary text a && is_boundary text (a + len)
   then Some (firstn len (skipn a text)) else None.
 
-Fixpoint trim_hyphens (l : list byte) : list byte :=
-  match l with
-  | b :: t => if nbeq b 45 then trim_hyphens t else l
-  | [] => []
-  end.
-
 (* try_split_range: Some node on success, None for either error message.
    (The loop returns Err at the second split point that works, and Err when
-   none does: exactly one candidate is the only success.) *)
+   none does: exactly one candidate is the only success.)  The second name
+   starts right after the hyphen at idx (`&tail[1..]`). *)
 Definition split_ok (contains : list byte -> bool) (txt : list byte) (idx : nat) : bool :=
-  nbeq (nthb idx txt) 45 && contains (firstn idx txt) && contains (trim_hyphens (skipn idx txt)).
+  nbeq (nthb idx txt) 45 && contains (firstn idx txt) && contains (skipn (S idx) txt).
 Definition try_split_range (contains : list byte -> bool) (txt : list byte) : option tree :=
   match filter (split_ok contains txt) (seq 0 (length txt)) with
   | [idx] =>
       Some (mk_node A_GlyphRange
               [Tok A_GlyphName (firstn idx txt); Tok K_Hyphen [45%N];
-               Tok A_GlyphName (trim_hyphens (skipn idx txt))] false)
+               Tok A_GlyphName (skipn (S idx) txt)] false)
   | _ => None
   end.
 
@@ -573,7 +569,8 @@ Section Parser.
     end.
 
   (* split_remap_current after the split function has filled the buffer with
-     `parts` (start, end, kind); the asserts become None *)
+     `parts` (start, end, kind): the trivia in front of the token goes to the
+     sink first, then the parts; the asserts become None *)
   Fixpoint emit_parts (parts : list (nat * nat * N)) (prev_end : nat) (s : sink) : option (nat * sink) :=
     match parts with
     | [] => Some (prev_end, s)
@@ -589,11 +586,15 @@ Section Parser.
     match parts with
     | [] => Some st
     | _ =>
-        match emit_parts parts 0 (sk st) with
+        match eat_trivia st with
         | None => None
-        | Some (e, s) =>
-            if negb (e =? ll (p_tok (b0 st))) then None
-            else advance (with_sink st s)
+        | Some st1 =>
+            match emit_parts parts 0 (sk st1) with
+            | None => None
+            | Some (e, s) =>
+                if negb (e =? ll (p_tok (b0 st1))) then None
+                else advance (with_sink st1 s)
+            end
         end
     end.
 
